@@ -50,17 +50,27 @@ def main():
             mod.run(chk)
         except Exception as ex:
             lib = library_exception(ex)
-            if lib is None:
-                raise
-            # the LIBRARY raised on an input the generators produce (none of them raises on the unchanged tree): that is a
-            # concrete failing input, not a harness crash; the rest of this run's oracle was not executed
             tb = traceback.format_exc()
-            traceback.print_exc()
-            chk.fail("exception:%s:%s" % (lib, type(ex).__name__),
-                     "the library raised %s: %s in %s on a generated in-domain input (last case: %s)"
-                     % (type(ex).__name__, str(ex)[:200], lib, str(getattr(chk, "last_case", None))[:300]),
-                     {"kind": "library-exception", "traceback": tb[-3000:], "last_case": str(getattr(chk, "last_case", None))[:2000]})
-            chk.notes.append("run aborted by a library exception; remaining oracle sections were not executed")
+            last = str(getattr(chk, "last_case", None))
+            if lib is not None:
+                # the LIBRARY raised on an input the generators produce (none of them raises on the unchanged tree): that is a
+                # concrete failing input, not a harness crash; the rest of this run's oracle was not executed
+                traceback.print_exc()
+                chk.fail("exception:%s:%s" % (lib, type(ex).__name__),
+                         "the library raised %s: %s in %s on a generated in-domain input (last case: %s)"
+                         % (type(ex).__name__, str(ex)[:200], lib, last[:300]),
+                         {"kind": "library-exception", "traceback": tb[-3000:], "last_case": last[:2000]})
+                chk.notes.append("run aborted by a library exception; remaining oracle sections were not executed")
+            elif isinstance(ex, (OSError, MemoryError, common.LeanError, ImportError)) or os.environ.get("VERIF_STRICT_HARNESS"):
+                raise                     # infrastructure: exit 2
+            else:
+                # an ordinary Python exception inside the check's own evaluation code.  On the unchanged tree every check runs to the
+                # end for every seed (that is tested), so this is the implementation returning something the evaluation cannot
+                # digest (another shape, a non-finite number where an exact one is expected …): the property is no longer shown to
+                # hold — a broken evaluation, reported like a broken correspondence (no failing input could be named)
+                traceback.print_exc()
+                chk.broke("evaluation", "the check's evaluation code raised %s: %s — the implementation returned something the "
+                          "evaluation does not expect (last case: %s)" % (type(ex).__name__, str(ex)[:200], last[:300]), tb[-3000:])
         rc = chk.finish()
     except Exception:
         traceback.print_exc()
